@@ -1,4 +1,4 @@
-//! The 16 concrete bit-vector types of the matrix, raw construction / observation, and the
+//! The 22 concrete bit-vector types of the matrix (plus the zero-word type), raw construction / observation, and the
 //! dispatch macros that select a concrete type from a kind id.
 
 use crate::val::*;
@@ -46,7 +46,10 @@ raw_fixed!(13, usize, 2);
 raw_fixed!(16, u128, 3);
 raw_fixed!(17, u64, 5);
 raw_fixed!(18, u16, 4);
-raw_fixed!(19, u8, 0);
+raw_fixed!(19, u64, 4);
+raw_fixed!(20, u64, 8);
+raw_fixed!(21, u8, 9);
+raw_fixed!(22, u8, 0);
 
 impl Raw for Bvd {
     const KID: u8 = 14;
@@ -112,6 +115,9 @@ macro_rules! with_kind {
             16 => { type $t = bva::Bvf<u128, 3>; $e }
             17 => { type $t = bva::Bvf<u64, 5>; $e }
             18 => { type $t = bva::Bvf<u16, 4>; $e }
+            19 => { type $t = bva::Bvf<u64, 4>; $e }
+            20 => { type $t = bva::Bvf<u64, 8>; $e }
+            21 => { type $t = bva::Bvf<u8, 9>; $e }
             _ => { type $t = bva::Bvf<u8, 0>; $e }
         }
     };
